@@ -297,3 +297,17 @@ Definition run_scan (arg : sx) : sx :=
     end
   | _ => sx_err
   end.
+
+(* ---- diagram rules ---- *)
+From PTA Require Import Diagram.
+(* fn 22: (graph only (base?) mods rel) *)
+Definition run_diagram (arg : sx) : sx :=
+  match arg with
+  | L [g; on; base; ms; rel] =>
+    match as_graph g, as_bool on, as_opt as_name base, as_list as_name ms, as_list as_edge rel with
+    | Some g, Some on, Some base, Some ms, Some rel =>
+      of_outcome (diagram_apply ceq (fun _ _ => false) g on base {| pd_mods := ms; pd_rel := rel |})
+    | _, _, _, _, _ => sx_err
+    end
+  | _ => sx_err
+  end.
